@@ -466,7 +466,8 @@ def run_c19(tier, seed, replay):
     docs = [{"events": ch} for ch in common.chunks(events, 20)]
     verdicts, stats = common.judge_events("Trace_Conv.tla", "Trace_Conv.cfg", docs, wd)
     # mode A: the algorithm model reaches exactly all functions (arity 0..3)
-    out, rc, wall = common.run_tlc("MC_Converter.tla", "MC_Converter.cfg", os.path.join(wd, "meta-mc"))
+    conv_n = 4 if tier == "thorough" else 3
+    out, rc, wall = common.run_tlc("MC_Converter.tla", "MC_Converter.cfg", os.path.join(wd, "meta-mc"), env={"CONV_N": str(conv_n)}, xmx="8g")
     if "No error has been found" not in out:
         raise ToolError("MC_Converter failed:\n" + out[-2000:])
     g, d = common.tlc_counts(out)
@@ -476,7 +477,7 @@ def run_c19(tier, seed, replay):
     import runner
     samples = [{"input": e["model"], "output": e["stdout"], "exit": e["exit"]} for e in events[:3]]
     return runner.report("C19", tier, seed, t0, items, verdicts, ["c19"], stats,
-                         {"samples": samples, "mode_A": "MC_Converter: Explode reaches every function exactly once for arity 0..3",
+                         {"samples": samples, "mode_A": "MC_Converter: Explode reaches every function exactly once for arity 0..%d" % conv_n,
                           "rule": "seeded aeon networks (<= 3 variables, arity <= 3, implicit and explicit unknown functions nested in expressions and shared between targets, names ending in _0/_1/_) piped through the convert-aeon-to-bnet binary; input and re-loaded output as data; TLC computes for each target the set of truth tables reached over all valuations of the fresh constants and compares it with the set of instantiations of the input function (spec/Converter.tla Related)"},
                          ASSUME_CLI[1:2] + ["the bnet parser of biodivine-lib-param-bn re-loads the output"],
                          lambda it, failed: {"property": "C19", "failed_judgements": failed, "items": [it], "recorded": byid[it["id"]]})
